@@ -216,11 +216,34 @@ PROGS = {
 }
 
 
+# programs WITHOUT a pattern rule (only BEGIN, only END, both, nothing at all, only functions, only BEGINFILE / ENDFILE): the input is
+# consumed and validated all the same -- a truncated or malformed value is a JSON input error, never a silent end of input
+NOPAT = {
+    "begin": ("BEGIN { print \"B\" }", "B\n", "", ""),
+    "begin2": ("BEGIN { print \"B\" }\nBEGIN { print \"B2\" }", "B\nB2\n", "", ""),
+    "beginfunc": ("function f(a) { return a }\nBEGIN { print f(\"B\") }", "B\n", "", ""),
+    "end": ("END { print \"E\" }", "", "", "E\n"),
+    "beginend": ("BEGIN { print \"B\" }\nEND { print \"E\" }", "B\n", "", "E\n"),
+    "endbegin": ("END { print \"E\" }\nBEGIN { print \"B\" }", "B\n", "", "E\n"),
+    "empty": ("", "", "", ""),
+    "blank": (" \n# no rule at all\n", "", "", ""),
+    "func": ("function f(a) { return a }", "", "", ""),
+    "bfile": ("BEGINFILE { print \"F\", $, $file }", "", "F", ""),
+    "befile": ("BEGIN { print \"B\" }\nENDFILE { print \"G\" }", "B\n", "G", ""),
+}
+for _k, _v in NOPAT.items():
+    PROGS[_k] = _v[0]
+
+
 def out_begin(pk):
+    if pk in NOPAT:
+        return NOPAT[pk][1]
     return "B\n" if pk == "trace" else ""
 
 
 def out_end(pk, state):
+    if pk in NOPAT:
+        return NOPAT[pk][3]
     if pk == "trace":
         return "E\n"
     if pk == "count":
@@ -229,6 +252,9 @@ def out_end(pk, state):
 
 
 def out_value(pk, v, fname, state):
+    if pk in NOPAT:
+        per = NOPAT[pk][2]
+        return "F %s %s\n" % (pyref.pretty(v), fname) if per == "F" else "G\n" if per == "G" else ""
     elems = v if isinstance(v, list) else [v]
     if pk == "print":
         return "".join(pyref.pretty(e) + "\n" for e in elems)
@@ -434,6 +460,29 @@ class C03(Check):
             add("twofiles", pk, [("a.json", chunk_at(bad, rand_cuts(bad)), False), ("b.json", chunk_at(other, []), False)])
             add("twofiles", pk, [("a.json", chunk_at(data, rand_cuts(data)), False), ("b.json", chunk_at(other, [1]), True)])
             add("twofiles", pk, [("a.json", chunk_at(data, []), False), ("b.json", chunk_at(other, list(range(1, len(other)))), False)])
+            # --- programs without a pattern rule over the same stream: chunkings, every (sampled) prefix with a clean end and a failing
+            # reader, stray text at the value boundaries, corruptions, two files
+            for pk2 in rng.sample(sorted(NOPAT), 2 if quick else 4):
+                for fail in (False, True):
+                    for cuts in ([n], list(range(1, n)), rand_cuts(data)):
+                        add("nopattern-chunking", pk2, [(name, chunk_at(data, cuts), fail)], key=key + pk2 + ("f" if fail else ""))
+                ppos = range(n + 1) if n <= 16 else sorted(set(rng.sample(range(n + 1), 12)) | set(boundary_cuts(data)) | {n - 1, n})
+                for i in ppos:
+                    pre = data[:i]
+                    for fail in (False, True):
+                        add("nopattern-prefix", pk2, [(name, chunk_at(pre, rng.choice([[], list(range(1, i)), rand_cuts(pre)])), fail)])
+                for bpos in bounds:
+                    for stray in rng.sample(STRAY, 2):
+                        mod = data[:bpos] + b" " + stray + b" " + data[bpos:]
+                        add("nopattern-stray", pk2, [(name, chunk_at(mod, rng.choice([[], rand_cuts(mod)])), False)])
+                if n and all(c < 128 for c in data):
+                    for i in rng.sample(range(n), min(n, 4)):
+                        c = rng.choice(list(CORRUPT))
+                        if data[i] != c:
+                            add("nopattern-corrupt", pk2, [(name, chunk_at(data[:i] + bytes([c]) + data[i + 1:], []), False)])
+                add("nopattern-twofiles", pk2, [("a.json", chunk_at(other, rand_cuts(other)), False), ("b.json", chunk_at(bad, rand_cuts(bad)), False)])
+                add("nopattern-twofiles", pk2, [("a.json", chunk_at(bad, []), False), ("b.json", chunk_at(other, []), False)])
+                add("nopattern-twofiles", pk2, [("a.json", chunk_at(data, rand_cuts(data)), False), ("b.json", chunk_at(other, [1]), True)])
         return cases
 
     # ------------------------------------------------------------------
@@ -502,9 +551,17 @@ class C03(Check):
                 break       # (every failing run waits out its deadline)
         stats["live_pipe_runs"] = nlive
         # faults through the binary: exit status 1, diagnostic naming the file, earlier values' output kept
-        probes = [(b"[1] ] [2]", "1\n"), (b"[1]\n[2", "1\n"), (b"[1] x", "1\n"), (b"1 2 }", "1\n2\n"), (b"[1,2]\n{\"a\":", "1\n2\n"), (b"nul", "")]
+        probes = [(b"[1] ] [2]", "1\n"), (b"[1]\n[2", "1\n"), (b"[1] x", "1\n"), (b"1 2 }", "1\n2\n"), (b"[1,2]\n{\"a\":", "1\n2\n"), (b"nul", ""),
+                  (b"[1] [2", "1\n"), (b"{", ""), (b"[1]\n\"abc", "1\n"), (b"\xef\xbb\xbf[1]", ""), (b"[1]]", "1\n")]
+        # every kind of program: with a pattern rule, and without one (only BEGIN, only END, both, empty, only a function, only BEGINFILE)
+        cli_progs = [("{ print }", "", True), ("BEGIN { print \"start\" }", "start\n", False), ("END { print \"end\" }", "", False),
+                     ("BEGIN { print \"start\" }\nEND { print \"end\" }", "start\n", False), ("", "", False), ("function f() { return 1 }", "", False),
+                     ("BEGINFILE { n++ }", "", False), ("BEGIN { print \"a\" }\nBEGIN { print \"b\" }", "a\nb\n", False)]
         with Scratch() as sc:
-            for data, out in probes:
+            for data, out, cprog, cbegin, prints in [(d_, o_, p_, b_, pr_) for d_, o_ in probes for p_, b_, pr_ in cli_progs]:
+                if not prints:
+                    self.cli_nopattern(sc, data, cprog, cbegin, viol)
+                    continue
                 good = sc.file(b"[7]\n", ".json")
                 badf = sc.file(data, ".json")
                 res = run_cli(["{ print }", good, badf], b"", timeout=10)
@@ -526,8 +583,30 @@ class C03(Check):
                     why = "faulty stdin %r: exit status %s, stdout %r, stderr %r" % (data, res.rc, res.out, res.err)
                 if why:
                     viol.append((Case("cli-fault-stdin", None, {"prog": "{ print }", "stdin": data.decode()}, True, ("cli",)), "jqawk binary: " + why))
-        stats["cli_fault_probes"] = 2 * len(probes)
+        stats["cli_fault_probes"] = 2 * len(probes) * len(cli_progs)
         return viol, stats
+
+    def cli_nopattern(self, sc, data, prog, begin_out, viol):
+        """faulty input `data` through the binary under a program without a pattern rule: second of two named files, the only named file,
+        stdin.  Exit status 1, the BEGIN output and nothing else on stdout, a diagnostic naming the input"""
+        good = sc.file(b"[7]\n", ".json")
+        badf = sc.file(data, ".json")
+        for how, args, stdin, label in (("second of two files", [prog, good, badf], b"", os.path.basename(badf).encode()),
+                                        ("the only file", [prog, badf], b"", os.path.basename(badf).encode()),
+                                        ("stdin", [prog], data, b"<stdin>")):
+            res = run_cli(args, stdin, timeout=10)
+            why = res.why_bad()
+            if not why and not res.timed_out:
+                if res.rc == 0:
+                    why = "faulty input %r (%s) under a program without a pattern rule: exit status 0, stderr %r: the fault went unreported" % (data, how, res.err)
+                elif res.out.decode("utf-8", "replace") != begin_out:
+                    why = "faulty input %r (%s): stdout %r, documented %r" % (data, how, res.out, begin_out)
+                elif label not in res.err:
+                    why = "faulty input %r (%s): the diagnostic does not name the input: %r" % (data, how, res.err)
+            if why:
+                viol.append((Case("cli-fault-nopattern", None, {"prog": prog, "input": data.decode("latin-1"), "delivered_as": how,
+                                                                "stderr": res.err.decode("utf-8", "replace")}, True, ("cli",)), "jqawk binary: " + why))
+                return
 
 
 def incremental(marks, iolog):
